@@ -152,5 +152,6 @@ func searchFunc(ctx *flags.Context) error {
 		return ctx.Raise(fmt.Errorf("encountered error in scanner: %v", err))
 	}
 
+	d.Commit()
 	return nil
 }
